@@ -184,3 +184,16 @@ def fam_modules(tier: str, rng: random.Random) -> Iterator[dict]:
                 for st, m in zip(h["cls"], combo):
                     st["mod"] = m
                 yield h
+
+
+def fam_kinds(tier: str, rng: random.Random) -> Iterator[dict]:
+    """Member kinds (method, property, static method, class method) defined by a base and inherited / overridden by
+    subclasses, with invariants introduced at every level: the kind of the member must stay what it was."""
+    for shape in ("chain2", "chain3", "siblings"):
+        n = len(SHAPES[shape])
+        for kind in ("fn", "prop", "static", "cls"):
+            for mopts in itertools.product([None, (0, 0, 0), (1, 0, 0), (0, 1, 0)], repeat=n - 1):
+                for iopts in itertools.product([[], ["CALL"], ["ALL"]], repeat=n):
+                    if tier == "quick" and n == 3 and rng.random() < 0.6:
+                        continue
+                    yield make_hist(shape, [(1, 1, 0)] + list(mopts), list(iopts), kind=kind, tag="kinds-" + shape)
